@@ -357,7 +357,7 @@ func (e *c19Env) request(a c19Act) (httpReq, bool) {
 	form := "application/x-www-form-urlencoded"
 	switch a.N {
 	case "PutUser":
-		m := map[string]any{"name": a.U, "email": c19Email(a.U, a.Ver), "common_name": fmt.Sprintf("%s v%d", a.U, a.Ver), "groups": []string{"staff"}}
+		m := map[string]any{"name": a.U, "email": c19Email(a.U, a.Ver), "common_name": fmt.Sprintf("%s v%d", a.U, a.Ver), "groups": []string{"staff", fmt.Sprintf("grp-v%d", a.Ver)}}
 		if a.Pw != "keep" {
 			m["password"] = c19Pw(a.Pw)
 		}
@@ -441,6 +441,14 @@ func c19Project(code int, hdr http.Header, body string) (c19Reply, string) {
 				if a := doc.FindElement("//Assertion/Conditions/AudienceRestriction/Audience"); a != nil {
 					r.Aud = c19EidOf(a.Text())
 				}
+				// every part of the user record carries the version it was stored with: an assertion that mixes
+				// parts of two versions (mail of one, groups of another) describes no stored user at all
+				for _, av := range doc.FindElements("//Assertion/AttributeStatement/Attribute/AttributeValue") {
+					var gv int
+					if _, err := fmt.Sscanf(av.Text(), "grp-v%d", &gv); err == nil && gv != r.Ver {
+						r.Ver = -1000*gv - r.Ver
+					}
+				}
 			}
 		} else if strings.Contains(body, `<form method="post" action="`+idpSrvRoot+`/login"`) {
 			r.Kind = "loginform"
@@ -456,6 +464,18 @@ func c19Project(code int, hdr http.Header, body string) (c19Reply, string) {
 				var v int
 				if _, err := fmt.Sscanf(strings.Replace(email, ".v", " ", 1), "%s %d@example.com", &u, &v); err == nil {
 					r.User, r.Ver = u, v
+				}
+				for _, key := range []string{"Groups", "groups"} {
+					if gs, ok := m[key].([]any); ok {
+						for _, g := range gs {
+							var gv int
+							if gstr, _ := g.(string); gstr != "" {
+								if _, err := fmt.Sscanf(gstr, "grp-v%d", &gv); err == nil && r.User != "" && gv != r.Ver {
+									r.Ver = -1000*gv - r.Ver
+								}
+							}
+						}
+					}
 				}
 			}
 		} else if strings.HasPrefix(strings.TrimSpace(body), "<EntityDescriptor") {
